@@ -68,10 +68,17 @@ def overflow_schedule(slots=8):
     return {"cex": "NoOverflow(scaled to 8 slots)", "wr": wr, "steps": steps, "expect": {"res": {}}}
 
 
+# the directed crash / close scenarios run under C02 (and C17): a store that cannot be reopened there has lost the
+# acknowledged commits with it
+DIRECTED_OWNER = {"reopen_refused": "C02", "commit_after_recovery_shadowed_or_refused": "C02"}
+
+
 def _report(ctx, s, driver, extra_args=None):
     for v in s["violations"]:
         kind = str(v.get("kind"))
         owner = OWNER.get(kind, ctx.pid)
+        if driver in ("close_race", "flush_race", "recovery_split"):
+            owner = DIRECTED_OWNER.get(kind, owner)
         if owner != ctx.pid:
             ctx.cov["reported_by_sibling"] = ctx.cov.get("reported_by_sibling", 0) + 1
             continue
@@ -153,6 +160,16 @@ def flush_race(ctx):
     _report(ctx, s, "flush_race", [])
 
 
+def recovery_split(ctx):
+    """directed: the newest commit-log segment does not fit one memtable on replay (reopened with a smaller memtable), more
+    commits follow, crash or close without flush: everything acknowledged must be there"""
+    s = core.run_driver("recovery_split", [], timeout=600)
+    if s["cases"] == 0:
+        raise core.ToolError("recovery_split ran no case")
+    ctx.add_driver(s)
+    _report(ctx, s, "recovery_split", [])
+
+
 def visibility_stress(ctx, runs):
     """hook-free: committers with tiny memtables (constant rotation / flush / compaction) and readers that begin right
     after an acknowledgement and must see it, whole and stable"""
@@ -173,6 +190,10 @@ def replay(ctx, rp):
     if rp.get("driver") == "visibility_stress":
         s = core.run_driver("visibility_stress", rp.get("args", []))
         _report(ctx, s, "visibility_stress", rp.get("args", []))
+        return
+    if rp.get("driver") == "recovery_split":
+        s = core.run_driver("recovery_split", [])
+        _report(ctx, s, "recovery_split", [])
         return
     if rp.get("driver") == "flush_race":
         s = core.run_driver("flush_race", [])
